@@ -35,11 +35,18 @@ def mk_heap(src, log):
         # value_element.add_final_newline_if_missing(): the line of this field is terminated
         log.append(('newline-value', args[0].name if isinstance(args[0], H.Ref) else None, it.h.version))
         return None
+    def clear_if_parent(it, a, k):
+        # Deb822Element.clear_parent_if_parent(parent): the link is dropped only when it points to that parent
+        o_ = it.h.objs[a[0].name]
+        if o_.get('parent_element') == a[1]:
+            it.h.touch(a[0].name)
+            o_['parent_element'] = None
+        return None
     h = H.Heap(src.mod(PM), field_alias={'_previous_node': 'previous_node'}, extra_modules=[src.mod('_util'), src.mod('_deb822_repro.tokens')],
                opaque_ctors={'Deb822WhitespaceToken'}, hooks={'_strI': strI, '._add_final_newline_if_missing': newline_hook,
                                                               '.add_final_newline_if_missing': value_newline_hook,
                                                               '.remove_newline': lambda it, a, k: (it.h.touch(a[0].name), it.h.objs[a[0].name].__setitem__('newline_token', None), None)[2],
-                                                              '.clear_parent_if_parent': lambda it, a, k: None})
+                                                              '.clear_parent_if_parent': clear_if_parent})
     return h
 
 
@@ -365,6 +372,58 @@ def r5c_replace_one_by_occurrence(rep, src):
             rep.fail('C10.R5', fn.site, what, '; '.join(problems), where=fn.where)
         else:
             rep.ok('C10.R5', fn.site, what, '→ %s' % ' '.join(order))
+
+
+def r5d_element_of_another_paragraph(rep, src):
+    """a field element may be placed in another paragraph with set_kvpair_element (the dictionary interface itself hands over elements
+    of a scratch paragraph): its parent link then names the paragraph it was put in last.  Removing or replacing the field in the
+    paragraph that still lists the element must not clear that link -- an element without parent makes iter_tokens() (every dump
+    of the document) raise AssertionError.  Scenario: one element of the paragraph has meanwhile been placed in another paragraph;
+    the field is then removed / replaced here: the element's link still names the other paragraph"""
+    A, B, C = H.Key('a', 'A'), H.Key('b', 'B'), H.Key('c', 'C')
+    for cname in (NOD, DUP):
+        for op, idx in (('remove_kvpair_element', None), ('remove_kvpair_element', 0), ('set_kvpair_element', None), ('set_kvpair_element', 0), ('set_kvpair_element', 1)):
+            if cname == NOD and idx is not None:
+                continue
+            for moved in (['a0'] if cname == NOD else ['a0', 'a1']):
+                log = []
+                heap = mk_heap(src, log)
+                if cname == DUP:
+                    para, kvs, nodes = build_dup(heap, [A, B, A, C])
+                else:
+                    keys = [A, B, C]
+                    lst, nodes = H.build_list(heap, keys)
+                    table = heap.new_dict('@table')
+                    for k_, n_ in zip(keys, nodes):
+                        heap.objs[table.name]['entries'].append((k_, n_))
+                    oset = heap.alloc('OrderedSet', {'_OrderedSet__table': table, '_OrderedSet__order': lst}, name='@set')
+                    d = heap.new_dict('@elements')
+                    for k_ in keys:
+                        heap.objs[d.name]['entries'].append((k_, mk_kv(heap, k_, k_.cls + '0')))
+                    para = heap.alloc(NOD, {'_kvpair_order': oset, '_kvpair_elements': d, 'parent_element': None}, name='@para')
+                    for k_, v_ in heap.objs[d.name]['entries']:
+                        heap.objs[v_.name]['parent_element'] = para
+                other = heap.alloc('ParagraphOfAnotherPlace', {}, name='@other')
+                heap.objs['@kv_' + moved]['parent_element'] = other       # q.set_kvpair_element('A', p.get_kvpair_element('A')) has happened
+                args = [key_arg(A, idx)]
+                if op == 'set_kvpair_element':
+                    new = mk_kv(heap, A, 'NEW')
+                    args.append(new)
+                fn, it, clo, a = run_method(src, heap, para, cname, op, args)
+                rep.saw_func(fn)
+                what = '%s(%s) when the element of occurrence %s has been placed in another paragraph' % (op, 'A' if idx is None else '(A, %d)' % idx, moved[1:])
+                try:
+                    it.call(clo, a)
+                except H.Raised as x:
+                    rep.fail('C10.R4', fn.site, what, 'raises %s (line %d)' % (x.exc, x.lineno), where=fn.where)
+                    continue
+                now = heap.objs['@kv_' + moved]['parent_element']
+                if now == other:
+                    rep.ok('C10.R4', fn.site, what, 'the link to the other paragraph is kept')
+                else:
+                    rep.fail('C10.R4', fn.site, what, 'the parent link of the element -- which names the OTHER paragraph, where the field still stands -- is set to %s: every later dump of the '
+                             'document raises AssertionError (q.set_kvpair_element("A", p.get_kvpair_element("A")); del p["A"]; file.dump())' % (now.name if isinstance(now, H.Ref) else now,),
+                             where=fn.where)
 
 
 def r_nodup(rep, src):
@@ -809,6 +868,7 @@ def check(src, rep, tier):
     rep.guard('C10.R1', r_nodup, src)
     rep.guard('C10.R5', r_nodup_histories, src)
     rep.guard('C10.R4', r4_file_insert_append, src)
+    rep.guard('C10.R4', r5d_element_of_another_paragraph, src)
     rep.guard('C10.R2', r_sort, src)
     rep.guard('C10.R6', r6_replaced_occurrence, src)
 
